@@ -16,7 +16,7 @@ add("C01", "vp_sample",
 
 add("C02", "vp_sample",
     "bounded-exhaustive enumeration + proptest against a soft-float / exact-truncation reference",
-    "int->float: every value of the <=24-bit sources (thorough: <=32-bit), structured values of the wider ones, bit-compared with a soft-float round-to-nearest-even reference, plus the int->float->int round trip wherever the width fits the mantissa. float->int: every f32 bit pattern of [-1,1) in the thorough tier (one seed-chosen pattern per 64 in quick) x 12 targets, f64 by proptest over sign/exponent/mantissa plus the truncation decision points, compared with trunc(x*2^(bits-1)) on the decomposed float. f32->f64 over all 2^32 patterns (thorough), f64->f32 on random values, exact midpoints +-1ulp, the overflow threshold and the subnormal range.",
+    "int->float: every value of the <=24-bit sources (thorough: <=32-bit), structured values of the wider ones (incl., for every magnitude, the neighbourhood of the mantissa's rounding half-way point +-{0,1,2, a few low bits}: the values on which one rounding and two successive roundings disagree), bit-compared with a soft-float round-to-nearest-even reference, plus the int->float->int round trip wherever the width fits the mantissa. float->int: every f32 bit pattern of [-1,1) in the thorough tier (one seed-chosen pattern per 64 in quick) x 12 targets, f64 by proptest over sign/exponent/mantissa plus the truncation decision points, compared with trunc(x*2^(bits-1)) on the decomposed float. f32->f64 over all 2^32 patterns (thorough), f64->f32 on random values, exact midpoints +-1ulp, the overflow threshold and the subnormal range.",
     "Trusted: the soft-float reference (cross-checked against hardware casts at start-up), IEEE semantics of the host, rustc/LLVM. f64 sources are sampled, not exhausted.",
     "DESIGN.md §4 C02")
 
@@ -34,13 +34,13 @@ add("C03", "vp_sample",
 
 add("C06", "vp_buf (+ libFuzzer target rb in the thorough tier)",
     "model-based testing: bounded-exhaustive step relation from every state + proptest operation histories against VecDeque / rotating-array models",
-    "The step relation (every operation with every argument) is executed from every valid (start, len) / first of capacities 1..=12 (thorough 1..=24), all two-operation sequences from every state of capacities 1..=4 (6), plus proptest histories of up to 300 (2000) operations over capacities up to 64, four storage kinds and two element types; after every operation len/is_empty/is_full/max_len, get(i), Index, iter, slices (and iter_loop for Fixed) are compared with the model, out-of-range Index must panic, constructors (from_raw_parts, from, from_full, FromIterator) must accept exactly the documented valid parts; iter(), iter_loop() and drain() obey the iterator laws (nth, skip, step_by, size_hint, count, last agree with next). Backing storage sits between canary guard zones and dead slots carry sentinels; a debug-assertion build turns unchecked out-of-bounds accesses into fatal failures that are reported with the case that caused them.",
+    "The step relation (every operation with every argument) is executed from every valid (start, len) / first of capacities 1..=12 (thorough 1..=24), all two-operation sequences from every state of capacities 1..=4 (6), plus proptest histories of up to 300 (2000) operations over capacities up to 64, four storage kinds and two element types, and for Fixed (which does not require Copy elements) an element type with a destructor whose every drop is recorded in a ledger (an element leaves the buffer exactly once, and is live when push hands it back); after every operation len/is_empty/is_full/max_len, get(i), Index, iter, slices (and iter_loop for Fixed) are compared with the model, out-of-range Index must panic, constructors (from_raw_parts, from, from_full, FromIterator) must accept exactly the documented valid parts; iter(), iter_loop() and drain() obey the iterator laws (nth, skip, step_by, size_hint, count, last agree with next). Backing storage sits between canary guard zones and dead slots carry sentinels; a debug-assertion build turns unchecked out-of-bounds accesses into fatal failures that are reported with the case that caused them.",
     "Trusted: the VecDeque model, std's unsafe-precondition checks (debug-assertion build), ASan in the fuzz tier. Capacities above the enumerated bound are covered by random histories only.",
     "DESIGN.md §4 C06")
 
 add("C10", "vp_buf (+ libFuzzer target slice in the thorough tier)",
     "bounded-exhaustive enumeration + proptest with pointer/length/content oracles and a counting allocator",
-    "Every N in 1..=32 x six formats (1/2/4/8-byte, incl. newtypes) x every length 0..=2N+1 x shared/mutable/boxed through every entry point (free functions and trait methods), plus random lengths up to 4096: Some iff N divides L, L/N frames, same memory, frame i channel c == sample i*N+c, a write through the mutable view changes exactly that sample, inverse view restores pointer and length; boxed conversions: pointer preserved, zero allocator events on success, every byte released after success-and-drop and after a failed conversion. In-place ops on six frame types: every length pair up to 6x6 and random lengths: equal to the element-wise frame op, and a length mismatch panics with the destination bit-identical.",
+    "Every N in 1..=32 x six formats (1/2/4/8-byte, incl. newtypes) x every length 0..=2N+1 x shared/mutable/boxed through every entry point (free functions and trait methods), plus random lengths up to 4096, the viewed range sitting at a non-zero offset inside a larger buffer (so that an empty range still has a real address and nothing outside the range may change): Some iff N divides L, L/N frames, same memory, frame i channel c == sample i*N+c, a write through the mutable view changes exactly that sample, inverse view restores pointer and length; boxed conversions: pointer preserved, zero allocator events on success, every byte released after success-and-drop and after a failed conversion. In-place ops on six frame types: every length pair up to 6x6 and random lengths: equal to the element-wise frame op, and a length mismatch panics with the destination bit-identical.",
     "Trusted: the counting allocator (self-tested), pointer comparison, std's unsafe-precondition checks in the debug-assertion build.",
     "DESIGN.md §4 C10")
 
@@ -52,7 +52,7 @@ add("C12", "vp_buf (+ libFuzzer target fork in the thorough tier)",
 
 add("C13", "vp_buf (+ libFuzzer target bus in the thorough tier)",
     "model-based testing: all operation sequences to a bounded depth + proptest histories against a position model, backlog observed through a cfg-guarded hook",
-    "Every applicable sequence of send / next(i) / drop(i) up to length 9 (thorough 11) over at most 3 live outputs (infinite and 3-frame source), plus random run-structured sequences of up to 300 operations over up to 6 outputs; after every operation: frame returned == source frame at the output's position, probe pulls == P, pending_frames == P - position, is_exhausted, and Bus::verif_backlog_len() == P - min live position (0 when none).",
+    "Every applicable sequence of send / next(i) / drop(i) up to length 9 (thorough 11) over at most 3 live outputs (infinite and 3-frame source), plus random run-structured sequences of up to 300 operations over up to 6 outputs; after every operation: frame returned == source frame at the output's position, probe pulls == P, pending_frames == P - position, is_exhausted, and Bus::verif_backlog_len() == P - min live position (0 when none). In a quarter of the random cases, and after the last send of every enumerated sequence, the Bus handle itself is dropped while its outputs live on.",
     "Trusted: the position model (15 lines), the probe source; the hook is a read-only accessor compiled only with --cfg rustaudio_dasp_verif.",
     "DESIGN.md §4 C13")
 
@@ -70,43 +70,43 @@ add("C04", "vp_sig",
 
 add("C05", "vp_sig",
     "bounded-exhaustive catalogue + proptest trees against a stream-length model",
-    "Every single adaptor and every pair x source lengths 0..=12 (thorough 16) x 1..4 channels x iterator-backed and interleaved-sample sources with every incomplete-tail length x delays 0..=3 x every consumption mode (is_exhausted before/after each next with pulls past the end, until_exhausted, take(n), interleaved iterator, next_sample, lift), two-source adaptors with every (L1, L2) <= 6, plus random trees: exhaustion exactly at min source length (+ leading delays), equilibrium afterwards, iterators yield exactly the model length and then None on five further calls, interleaved output yields frames x channels samples in channel order. Sources include non-fused iterators (which yield items again after None: the signal must end exactly once); the interleaved output is also cloned after every possible number of samples; take / until_exhausted / the interleaved iterator obey the iterator laws (nth, skip, step_by, size_hint, count, last agree with next).",
+    "Every single adaptor and every pair x source lengths 0..=12 (thorough 16) x 1..4 channels x iterator-backed and interleaved-sample sources with every incomplete-tail length x delays 0..=3 x every consumption mode (is_exhausted before/after each next with pulls past the end, until_exhausted, take(n), interleaved iterator, next_sample, lift), two-source adaptors with every (L1, L2) <= 6, plus random trees: exhaustion exactly at min source length (+ leading delays), equilibrium afterwards, iterators yield exactly the model length and then None on five further calls, interleaved output yields frames x channels samples in channel order. Sources include non-fused iterators (which yield items again after None: the signal must end exactly once); the interleaved output is also cloned after every possible number of samples; take / until_exhausted / the interleaved iterator obey the iterator laws (nth, skip, step_by, size_hint, count, last agree with next). The combining adaptors that are not tree nodes: mul_hz over every (source length <= 8, multiplier-signal length <= 12, ratio k/4 <= 3, floor|linear) is exhausted iff the multiplier signal is or a plain converter at the same ratio is; bus outputs under random pull schedules are exhausted iff they have received every source frame.",
     "Trusted: the stream-length model (pointwise keeps, two-source min, delay adds).",
     "DESIGN.md §4 C05")
 
 add("C08", "vp_sig",
     "proptest + small exhaustive grid against an exact-rational position model with an instrumented source (exact regime ==, general regime derived tolerance)",
-    "Runs of up to 300 outputs (drift runs 2e4 / 1e6) over 5 frame formats, floor and linear interpolators, finite (1..60) and infinite sources, and nine ways of establishing the ratio (three constructors, the Signal methods, mul_hz with a control signal, the three setters before every frame). The model keeps P_n as an exact multiple of 2^-64. Exact regime (ratios k/2^m, grid-valued frames): pulls beyond priming == floor(P_n), floor output == source[floor(P_n)], linear output == exact blend (truncated toward zero for integer formats), is_exhausted() before every output, until_exhausted() count == model and in {ceil((R+1)/r), +1}, one control frame per output for mul_hz. General regime (arbitrary ratios in [1e-3, 1e3]): the same with a tolerance of n*2^-51*(1+r_max) on the position.",
+    "Runs of up to 300 outputs (drift runs 2e4 / 1e6) over 5 frame formats, floor and linear interpolators, finite (1..60) and infinite sources, and nine ways of establishing the ratio (three constructors, the Signal methods, mul_hz with a control signal, the three setters before every frame). The model keeps P_n as an exact multiple of 2^-64. Exact regime (ratios k/2^m, grid-valued frames): pulls beyond priming == floor(P_n), floor output == source[floor(P_n)], linear output == exact blend (truncated toward zero for integer formats), is_exhausted() before every output, until_exhausted() count == model and in {ceil((R+1)/r), +1}, one control frame per output for mul_hz. The hz-pair entry points are called with (p x t, t) for 14 target rates t (powers of two, small odd numbers, common and uncommon audio rates) with p x t exact, incl. every whole-number ratio up to 200 and every quarter ratio up to 50, so the quotient source_hz / target_hz is exactly p. General regime (arbitrary ratios in [1e-3, 1e3]): the same with a tolerance of n*2^-51*(1+r_max) on the position.",
     "Trusted: the position model, the probe source, f64 exactness on the dyadic grid. The general regime cannot distinguish positions closer than the stated tolerance to an integer.",
     "DESIGN.md §4 C08")
 
 add("C20", "vp_sig",
     "bounded-exhaustive enumeration + proptest against closed-form references",
-    "Hann/Rectangle window functions on every phase k/2^m (m <= 10) and random phases in [0,1] for f64 and f32 phase types (value vs sin^2(pi p), range, symmetry, end points); Window::new(n) for n in 2..=64 and {100, 1000, 4096}; Windower over every (L, bin, hop) in 0..=40 x 2..=12 x 1..=14 x two windows x three frame formats plus random larger triples: chunk count == floor((L-b)/h)+1 (0 when L < b), chunk k's first b frames == frames[k*h+i] scaled by W(i/(b-1)), size_hint() before every next() brackets the number of chunks still to come, None is sticky; nth / skip / step_by on the Windower see the same schedule; hops up to usize::MAX; Window and Windowed obey the iterator laws.",
-    "Trusted: libm sin for the reference shape; stated tolerances (1e-12 / 2e-7 / 1e-9*n / 1 LSB).",
+    "Hann/Rectangle window functions on every phase k/2^m (m <= 10) and random phases in [0,1] for f64 and f32 phase types (value vs sin^2(pi p), range, symmetry, end points); Window::new(n) for n in 2..=64 and {100, 1000, 4096}; Windower over every (L, bin, hop) in 0..=40 x 2..=12 x 1..=14 x two windows x four frame formats (f64, [f32;2], i16, [u8;2]) plus random larger triples: chunk count == floor((L-b)/h)+1 (0 when L < b), chunk k's first b frames == frames[k*h+i] scaled by W(i/(b-1)), size_hint() before every next() brackets the number of chunks still to come, None is sticky; nth / skip / step_by on the Windower see the same schedule; hops up to usize::MAX; Window and Windowed obey the iterator laws.",
+    "Trusted: libm sin for the reference shape; stated tolerances (1e-12 / 2e-7 / 1e-9*n); integer frames must be unchanged under the Rectangle window and otherwise lie between the truncated products of the signed amplitude with w -+ 3e-7.",
     "DESIGN.md §4 C20")
 
 add("C17", "vp_sig",
     "proptest + long deterministic runs against an exact accumulated-phase model; metamorphic/purity relations for noise",
-    "Oscillators driven at random and boundary rates with constant (ConstHz) and per-frame (Hz over an instrumented frequency signal) frequencies from 0 to 1e12 x rate, runs to 2000 frames plus 1e6-frame (thorough 2e7) tiny-step, huge-step, varying and exact-regime runs: phase in [0,1) and starting at 0, phase == frac(sum of steps) exactly in the exact regime (power-of-two rate, dyadic steps) and within n*2^-52*(1+step_max) otherwise, sine/saw/square against the observed phase, simplex noise in range and equal to its value at the same phase, one frequency frame consumed per output frame (also after the frequency signal has reported exhaustion). Noise: boundary seeds (0, 1, 2^32, 2^63, u64::MAX-k for k<=300) and random seeds: in range, no panic, reproducible on restart and clone, frame n of noise(s) == frame 0 of noise(s+n).",
+    "Oscillators driven at random and boundary rates with constant (ConstHz) and per-frame (Hz over an instrumented frequency signal) frequencies from 0 to 1e12 x rate, runs to 2000 frames plus 1e6-frame (thorough 2e7) tiny-step, huge-step, varying and exact-regime runs: phase in [0,1) and starting at 0, phase == frac(sum of steps) exactly in the exact regime (power-of-two rate, dyadic steps) and within the sum of one ulp of every addition so far (2^-52 x (phase + step) per frame) otherwise, steps down to 1e-19 (below 2^-52) and rates below 1 included, sine/saw/square against the observed phase, simplex noise in range and equal to its value at the same phase, one frequency frame consumed per output frame (also after the frequency signal has reported exhaustion). Noise: boundary seeds (0, 1, 2^32, 2^63, u64::MAX-k for k<=300) and random seeds: in range, no panic, reproducible on restart and clone, frame n of noise(s) == frame 0 of noise(s+n).",
     "Trusted: libm sin/cos for the references; the phase observer is a second instance of the same Phase code (the model checks it against exact accumulation).",
     "DESIGN.md §4 C17")
 
 add("C11", "vp_sig (std) + vp_nostd (dasp_sample/frame/ring_buffer/rms with default-features = false)",
     "proptest operation histories + long runs against an exact windowed mean-square reference, in two feature configurations",
-    "Histories of push / push-squared / reset (up to 50 x N, max 3000 operations; long runs of 1e5, thorough 1e6 pushes with loud/quiet alternation) over 7 formats x 1/2/5 channels x window lengths 1..=64, 100, 1000. Exact regime (grid values k/64, libm sqrt): next_squared == mean and next == sqrt(mean) bit for bit; general regime: |next_squared - mean| within the derived bound u X^2 (2.2 T (N+1)/N + 5), next within the bound propagated through the square root (4u relative for libm; 7% + 2^-62 / 2^-500 for the no_std approximation); never negative or NaN; after reset() bit-identical to a fresh detector on the same subsequent input; current() == last next(); the signal adaptor bit-identical to the direct detector, also when pulled N+3 frames past the end of its source. The driver runs a std binary and a binary whose dasp crates are built without the std feature (a start-up self-check confirms which square root is linked) and merges their evidence.",
+    "Histories of push / push-squared / reset (up to 50 x N, max 3000 operations; long runs of 1e5, thorough 1e6 pushes with loud/quiet alternation; value profiles incl. loud, then far quieter but non-zero, then reset, then ordinary input) over 7 formats x 1/2/5 channels x window lengths 1..=64, 100, 1000. Exact regime (grid values k/64, libm sqrt): next_squared == mean and next == sqrt(mean) bit for bit; general regime: |next_squared - mean| within the derived bound u X^2 (2.2 T (N+1)/N + 5), next within the bound propagated through the square root (4u relative for libm; 7% + 2^-62 / 2^-500 for the no_std approximation); never negative or NaN; after reset() bit-identical to a fresh detector on the same subsequent input; current() == last next(); the signal adaptor bit-identical to the direct detector, also when pulled N+3 frames past the end of its source. The driver runs a std binary and a binary whose dasp crates are built without the std feature (a start-up self-check confirms which square root is linked) and merges their evidence.",
     "Trusted: f64 reference arithmetic on exact amplitudes (its own error is added to the bound). The general-regime bound grows with the number of pushes since the last reset; the exact regime compensates.",
     "DESIGN.md §4 C11")
 
 add("C19", "vp_sig",
     "bounded-exhaustive enumeration (rectifiers) + proptest histories (envelope) against exact and interval oracles; one open known finding excluded by construction",
-    "Rectifiers: every value of the 8/16-bit formats (minimum excluded, as the statement's premise), boundary sets and random values of the other ten formats, 1..=4 channels, functions and Rectifier impls: |signed amplitude|, max(s, eq), min(s, eq) exactly. Envelope: histories of up to 400 frames over 7 frame types x peak (three rectifiers) and rms (window 1..=32) detection x attack/release from {0, 1e-3, 0.5, 1, 10, 1e4, 3.4e7, 1e9, random} with set_attack_frames/set_release_frames at random steps, directly and through the detect_envelope adaptor: every output channel inside d + [g_lo, g_hi](l - d) with g = exp(-1/frames), between the previous envelope and the detected value, equal to the detected value for a zero time constant, prefix before the first parameter change identical to the unchanged run, adaptor bit-identical to the detector, also when pulled past the end of its source. Known finding F8 (i32 frames, gain rounding to 1.0, previous envelope at full scale -> overflow) is excluded by construction, counted, and reproduced by one deterministic probe that prints the KNOWN-FINDING line; any other failure is a violation.",
+    "Rectifiers: every value of the 8/16-bit formats (minimum excluded, as the statement's premise), boundary sets and random values of the other ten formats, 1..=4 channels, functions and Rectifier impls: |signed amplitude|, max(s, eq), min(s, eq) exactly. Envelope: histories of up to 400 frames over 7 frame types x peak (three rectifiers) and rms (window 1..=32) detection x attack/release from {0, -0.0, 1e-30, 1e-3, 0.5, 1, 10, 1e4, 3.4e7, 1e9, random} with set_attack_frames/set_release_frames at random steps, directly and through the detect_envelope adaptor: every output channel inside d + [g_lo, g_hi](l - d) with g = exp(-1/frames), between the previous envelope and the detected value, equal to the detected value for a zero time constant, prefix before the first parameter change identical to the unchanged run, adaptor bit-identical to the detector, also when pulled past the end of its source. Known finding F8 (i32 frames, gain rounding to 1.0, previous envelope at full scale -> overflow) is excluded by construction, counted, and reproduced by one deterministic probe that prints the KNOWN-FINDING line; any other failure is a violation.",
     "Trusted: f64 exp for the reference gain (1e-5 relative allowance for the f32 powf), a second instance of the detector stage to observe d.",
     "DESIGN.md §4 C19, §5 F8")
 
 add("C18", "vp_sig",
     "proptest + depth/length grid with round-trip (ratio 1), metamorphic (superposition, scaling, reset) and range oracles",
-    "Depths 1..=16 (thorough 64), histories of 0..6 x depth frames incl. the priming phase, fractions {0, k/1024, random, 1-2^-53}, formats f64, f32, [f64;2], i16, i32 (float histories scaled by gains up to 1e6): (i) Converter at ratio exactly 1 reproduces the source delayed by exactly depth frames within 1e-12 peak (+1 LSB), for every depth and a grid of history lengths around depth; (ii) interp(A+B) ~ interp(A)+interp(B) and interp(2^k A) ~ 2^k interp(A) within derived rounding bounds; (iii) outputs finite and bounded, also through the converter at random ratios; (iv) constant input on a primed buffer with depth >= 4 within 1 % on a grid of 64 fractions; (v) after reset() silent and bit-identical to a fresh interpolator on any subsequent history.",
+    "Depths 1..=16 (thorough 64), histories of 0..6 x depth frames incl. the priming phase, fractions {0, k/1024, random, 1-2^-53}, formats f64, f32, [f64;2], i16, i32 (float histories scaled by gains from 1e-30 to 1e6): (i) Converter at ratio exactly 1 (scale 1.0, or two equal rates through from_hz_to_hz / set_hz_to_hz) reproduces the source delayed by exactly depth frames within 1e-12 peak (+1 LSB), for every depth and a grid of history lengths around depth; (ii) interp(A+B) ~ interp(A)+interp(B) and interp(2^k A) ~ 2^k interp(A) within derived rounding bounds; (iii) outputs finite and bounded, also through the converter at random ratios; (iv) constant input on a primed buffer with depth >= 4 within 1 % on a grid of 64 fractions; (v) after reset() silent and bit-identical to a fresh interpolator on any subsequent history.",
     "Trusted: the stated tolerances; integer inputs are limited to 0.15 full scale (overflow on full-scale integer input is outside the statement).",
     "DESIGN.md §4 C18")
 
@@ -118,13 +118,13 @@ add("C09", "vp_graph (+ libFuzzer target graph in the thorough tier)",
 
 add("C16", "vp_graph",
     "proptest + catalogue (kind x wrapper x channel layout) against per-node reference functions inside a real graph",
-    "Sum, SumBuffers, Pass, Delay, signal node and nested GraphNode, each through bare / &mut / Box / BoxedNode / BoxedNodeSend / Box<dyn FnMut> / Box<dyn Fn> / fn-pointer forms, with 0..6 inputs of 0..4 buffers, 0..4 output buffers (mismatched on purpose), 1..6 consecutive process calls with fresh contents from constant-writer source nodes, Delay rings of 1..200 samples per channel (shorter than, equal to and longer than a buffer), signal frames of 1..4 channels: Sum per channel over the inputs that have it, SumBuffers over all buffers, Pass copies and leaves surplus outputs (sentinel pattern) untouched, Delay == per-channel FIFO carried across calls, signal node de-interleaves one buffer length of frames per call, GraphNode == processing the same inner graph directly (inner graphs whose output node is a Sum, a Pass with a surplus buffer, or sits on a feedback loop through a delay), signal nodes over endless and over finite signals that end during the run, every wrapper bit-identical to the bare node.",
+    "Sum, SumBuffers, Pass, Delay, signal node and nested GraphNode, each through bare / &mut / Box / BoxedNode / BoxedNodeSend / Box<dyn FnMut> / Box<dyn Fn> / fn-pointer forms, with 0..6 inputs of 0..4 buffers, 0..4 output buffers (mismatched on purpose), 1..6 consecutive process calls with fresh contents from constant-writer source nodes (levels scaled by 2^e, e down to -143: quiet and subnormal signals), Delay rings of 1..200 samples per channel (shorter than, equal to and longer than a buffer), signal frames of 1..4 channels: Sum per channel over the inputs that have it, SumBuffers over all buffers, Pass copies and leaves surplus outputs (sentinel pattern) untouched, Delay == per-channel FIFO carried across calls, signal node de-interleaves one buffer length of frames per call, GraphNode == processing the same inner graph directly (inner graphs whose output node is a Sum, a Pass with a surplus buffer, or sits on a feedback loop through a delay), signal nodes over endless and over finite signals that end during the run, every wrapper bit-identical to the bare node.",
     "Trusted: the reference functions; exact comparison on grid contents, n eps sum|x| otherwise. dasp_graph is built against the crates.io 0.11.0 dasp_* crates exactly as the repository resolves them.",
     "DESIGN.md §4 C16")
 
 add("C07", "vp_alloc",
     "scenario catalogue driven by enumeration + proptest parameters, observed with a counting global allocator (thread-local, armed regions)",
-    "26 scenarios covering sample conversions and arithmetic, every Frame method, borrowed slice views and in-place ops, Bounded/Fixed ring buffers over array / &mut / Vec / Box<[T]> storage, rectifiers, RMS, envelope detectors, Floor/Linear/Sinc interpolators, window functions, every signal source and adaptor (incl. take / until_exhausted / interleaved samples / lift / by_ref), fork by_ref and by_rc branches, buffered, rate conversion with every interpolator and mul_hz, rms / detect_envelope adaptors, Window / Windower / Windowed, random adaptor-tree compositions, graphs of stock nodes and wrappers (Graph and StableGraph, cycles, nested GraphNode, alternating output nodes) after a warm-up process call, and the bus in lock-step (backlog and live bytes constant, also after an output joined and was dropped while everything was in step). State is constructed unarmed; 16..2000 operations (thorough: 2e5) run armed; allocs == reallocs == frees == 0 and the checksum equals the unarmed run's.",
+    "27 scenarios covering sample conversions and arithmetic (incl. the operators of the eight custom-width integer types, in the debug-assertion build), every Frame method, borrowed slice views and in-place ops, Bounded/Fixed ring buffers over array / &mut / Vec / Box<[T]> storage (incl. extend from iterators of unknown length, shorter and longer than the buffer), rectifiers, RMS, envelope detectors, Floor/Linear/Sinc interpolators, window functions, every signal source and adaptor (incl. take / until_exhausted / interleaved samples / lift / by_ref), fork by_ref and by_rc branches, buffered, rate conversion with every interpolator and mul_hz, rms / detect_envelope adaptors, Window / Windower / Windowed, random adaptor-tree compositions, graphs of stock nodes and wrappers (Graph and StableGraph, cycles, nested GraphNode, alternating output nodes) after a warm-up process call, and the bus in lock-step (backlog and live bytes constant, also after an output joined and was dropped while everything was in step). State is constructed unarmed; 16..2000 operations (thorough: 2e5) run armed; allocs == reallocs == frees == 0 and the checksum equals the unarmed run's.",
     "Trusted: the counting allocator (self-tested at start-up). An allocation in an operation outside the catalogue is invisible; the catalogue is listed in the evidence.",
     "DESIGN.md §4 C07")
 
